@@ -214,6 +214,11 @@ def scalar_corpus():
                   "schema.float.min(v).max(v)", "schema.float.min(v)", "schema.float.max(v)", "schema.float(v).precision(1)",
                   "schema.float(v).precision(1).max(v)", "schema.float(v).precision(2).min(v)", "schema.float.min(v).precision(3)"):
             add(e, v, v=v)
+    # precision at and beyond what a double carries, denormals, bounds equal to each other and to the value
+    for v in (0.1 + 0.2, 1 / 3, 5e-324, 2.5e-320, 123456789.123456789, 1e22):
+        for e in ("schema.float(v).precision(15)", "schema.float(v).precision(16)", "schema.float(v).precision(20)", "schema.float(v).precision(0)",
+                  "schema.float.min(v).max(v)", "schema.float.min(v).max(v).precision(17)", "schema.float(v).min(v).max(v).precision(3)"):
+            add(e, v, v=v)
     # fixed values with more digits than the declared precision: rounding ties and bounds that coincide with the value
     for v in (1.115, 2.675, 3.149, 3.141, 0.125, -0.335, 1e-9, 123456.789):
         for e in ("schema.float(v).precision(2)", "schema.float(v).precision(1)", "schema.float(v).precision(0)",
